@@ -102,6 +102,7 @@ def worker_main(prop_id, tier, wid, nworkers, verif_seed, budget, max_cases,
         k += 1
         seed = case_seed(verif_seed, prop_id, index)
         rng = random.Random(seed)
+        print(f'case {index}', flush=True)
         try:
             case = prop.gen(rng, tier)
             case['index'] = index
@@ -138,7 +139,10 @@ def worker_main(prop_id, tier, wid, nworkers, verif_seed, budget, max_cases,
             rep['aborted'][v.aborted] += 1
         if v.key is not None:
             keys.add(v.key)
-            if v.nontrivial:
+            multi = getattr(v, 'ntkeys', None)
+            if multi:
+                ntkeys.update('/'.join(map(str, x)) for x in multi)
+            elif v.nontrivial:
                 ntkeys.add(v.key)
         if v.sample is not None and len(rep['samples']) < 2 and (
                 v.nontrivial or not rep['samples']):
@@ -149,10 +153,11 @@ def worker_main(prop_id, tier, wid, nworkers, verif_seed, budget, max_cases,
             rep['viol_counts'][viol['sig']] += 1
             if per_sig[viol['sig']] < 2:
                 per_sig[viol['sig']] += 1
+                focus = getattr(prop, 'focus', None)
                 rep['violations'].append({
                     'index': index,
                     'violation': viol,
-                    'case': case
+                    'case': focus(case, viol) if focus else case
                 })
     rep['keys'] = sorted(keys)
     rep['nontrivial_keys'] = sorted(ntkeys)
